@@ -33,41 +33,68 @@ ID = "C17"
 RULE = ("every schedule with <= B pre-emptions (one player: B=2 quick, 3 thorough; two players: B=2; three players: B=1 quick, "
         "2 thorough; each enumeration capped, see harness/props/c17.py:generate) of "
         "each control history x wait in {T,F} x chunk counts, plus random walks over schedules; distinct = distinct "
-        "(script, wait, cs, executed schedule); non-trivial = at least one player thread ran and at least one "
-        "context switch between two unfinished threads happened.  Fine-grained families (every pull from a played "
+        "(script, wait, cs, executed schedule, call shape, faults); non-trivial = at least one player thread ran and at "
+        "least one context switch between two unfinished threads happened.  Fine-grained families (every pull from a played "
         "iterable is a yield point; harness/props/c17.py:FINE_FAMILIES x {chunks.struct, chunks.array} x wait in {T,F}): "
         "every schedule with <= 2 pre-emptions taken inside chunk assembly (pre-empted thread pulling or about to "
         "write; thorough: <= 3) plus <= 1 pre-emption anywhere (thorough: <= 2) for two players with equal / "
         "different chunk sizes, formats, lengths, control calls, the same list object played twice, Stream.copy() "
         "copies, one thub object, iterables that raise; three players <= 1 (thorough 2) pre-emptions in assembly; "
-        "random walks over random 2-3 player configurations")
+        "random walks over random 2-3 player configurations.  Call shapes (SHAPES x SHAPE_HISTORIES, <= 1 pre-emption, and "
+        "70 % of the random cases): chunk_size by keyword / omitted (chunks.size set for the run), rate / channels / "
+        "output_device_index by keyword or omitted, AudioIO(wait) / AudioIO(wait=...) / AudioIO(), api='jack' positional / "
+        "keyword / omitted, close() / terminate(), samples spelled as int / float / Fraction / half-integers (float, "
+        "Fraction); the pa.open arguments are compared with the Lean spec openArgs.  Backend faults (FAULT_FAMILIES, <= 2 "
+        "pre-emptions, and 20 % of the random coarse cases): the (n+1)-th write of a device stream raises; pa.open raising: "
+        "extra_checks (differential: the history with the failing call vs the history without it).  With-blocks left "
+        "normally / by an exception.  Recording histories (entry rec: REC_HISTORIES x 3 call shapes + random histories of "
+        "record / take / stop / close, 1-4 streams, takes past the end, calls after close)")
 TRUSTED = [
     "hand-written Lean transition system ALV/Model/C17.lean of AudioIO.play/close/thread_finished and "
     "AudioThread.run/stop/pause/play (modelled, not verified); atomicity = one threading/backend operation plus the "
     "local code up to the next one; the variant of stop() (Cfg.fixed) is probed from the source under test — on the "
-    "repaired source the liveness theorems that apply are the ones with cfg.fixed = true",
+    "repaired source the liveness theorems that apply are the ones with cfg.fixed = true.  An iterable that raises (or "
+    "a backend write that raises) is the step `write` with nothing left and `fail` set (Cfg.fails by player index)",
     "fine-grained cases: hand-written ALV/Model/C17Fine.lean (chunk assembly: one pull per step, buffer per player; "
-    "both chunking strategies have this shape) tied step by step; proved to refine the coarse system when no iterable "
-    "raises (fine_refines); played objects are wrapped in props/c17.py:Hooked (a yield point before each item is handed "
-    "over; the wrapped object itself — list, Stream.copy() copy, thub copy — is advanced atomically); which variant of "
-    "`run` (exception leaves the loop with / without the epilogue: FCfg.dieFixed) is probed from the source under test",
+    "both chunking strategies have this shape) tied step by step; proved to refine the coarse system, raising iterables "
+    "included when run has its try/finally (fine_refines under Sound); played objects are wrapped in props/c17.py:Hooked "
+    "(a yield point before each item is handed over; the wrapped object itself — list, Stream.copy() copy, thub copy — is "
+    "advanced atomically); which variant of `run` (exception leaves the loop with / without the epilogue: FCfg.dieFixed) "
+    "is probed from the source under test",
+    "call shapes: ALV/Spec/C17.lean PlayCall / openArgs / frames / samplesPerChunk are a hand-written reading of "
+    "AudioThread.__init__ (defaults, _STRUCT2PYAUDIO, the setdefault of output_device_index); the driver resolves the "
+    "call as written with them (the chunk size of the modelled play IS samplesPerChunk) and the harness compares the "
+    "keyword arguments the fake backend received; record(): the expected pa.open arguments are computed in props/c17.py",
+    "recording histories: hand-written ALV/Model/C17Rec.lean (RecStream generator, AudioIO.record / recording_finished / "
+    "the recordings loop of close) in its INTENDED behaviour, tied call by call (results of every take, reads issued, "
+    "device streams closed, _recordings, terminate); the fake input device delivers devChunk; the code under test "
+    "deviates from it on one class of histories (known finding D22), recognised by the model-side predicate "
+    "Driver/C17.lean:finishesLater",
+    "failed pa.open: no model; extra_checks compares the real code with itself (history with the failing play call vs "
+    "the history without it: log, what every stream received, manager state)",
     "harness/sched.py (deterministic scheduler in place of `threading`) and harness/fakeaudio.py (fake pyaudio/_portaudio "
-    "with the PortAudio stream protocol); CPython `threading` semantics assumed, attribute reads/writes between two "
-    "yield points are taken as atomic (GIL)",
+    "with the PortAudio stream protocol, fault injection, an input device, host API infos); CPython `threading` semantics "
+    "assumed, attribute reads/writes between two yield points are taken as atomic (GIL)",
 ]
 ASSUMPTIONS = [
     "one control thread issues play/pause/play/stop/join/close; players are AudioThread objects created by AudioIO.play",
     "audio iterables are finite (lists, generators over lists, Stream.copy() / thub copies of a finite Stream, "
-    "possibly raising after their samples), samples and the float zero padding packable in the sample format (dfmt 'f'; "
-    "'i'/'h' only with whole chunks), nchannels=1, no recording streams (the property is about playback), api=None",
+    "possibly raising after their samples), samples (ints, floats, Fractions, exactly representable in float32) and the "
+    "float zero padding packable in the sample format (dfmt 'f'; 'i'/'h' only with whole chunks), channels 1 or 2 by the "
+    "`channels` keyword (the deprecated `nchannels` alias is not exercised); recording streams: one channel, dfmt 'f', "
+    "chunk_size > 0, histories of the control thread alone (no player threads in the same history)",
+    "backends: PyAudio-compatible; a write that raises is covered (the thread still closes its stream); an open that "
+    "raises is covered by the differential extra check; a backend whose stream.close() or terminate() raises is NOT "
+    "covered (thread_finished would be skipped / close() would propagate the error)",
     "fine-grained system (Lean, all schedules, any number of players, per-player chunk sizes): "
     "fine_assembly_own_samples (every configuration, raising iterables included: stream ++ buffer ++ unpulled = the "
-    "player's own audio, buffer <= cs, chunks of exactly cs samples); when no iterable raises: fine_refines (a fine step "
-    "is a coarse step or a pull), fine_delivered_prefix/complete, fine_safety, fine_terminal_iff, fine_rank_decreases, "
-    "fine_steps_bounded, fine_maximal_run_exists, fine_shutdown, fine_wait_close_delivers_all; raising iterables: "
-    "die_close_spins (code as it is: close loops for ever over the dead thread, known finding D21), "
-    "die_fixed_close_returns (with try/finally); general shutdown with raising iterables + repair is PENDING "
-    "(fine_shutdown_with_raising_iterables_PENDING)",
+    "player's own audio, buffer <= cs, chunks of exactly cs samples); under Sound (run has its try/finally, or no "
+    "iterable raises): fine_refines (a fine step is a coarse step or a pull), fine_delivered_prefix/complete, "
+    "fine_safety, fine_terminal_iff, fine_rank_decreases, fine_steps_bounded, fine_maximal_run_exists, fine_shutdown, "
+    "fine_wait_close_delivers_all, fine_shutdown_with_raising_iterables (the former PENDING statement, now a theorem); "
+    "delivered_failing (an un-stopped player whose iterable raises delivered exactly audio[: len//cs*cs]); "
+    "die_close_spins (code without try/finally: close loops for ever over the dead thread, finding D21, fixed in /repo), "
+    "die_fixed_close_returns",
     "liveness is proved for maximal runs of the model WITHOUT a fairness assumption: every step of every thread "
     "decreases a ranking function (theorem rank_decreases), so every schedule is finite (steps_bounded, bound "
     "1 + sum over calls: play 27+8*chunks, pause/play/stop 4, join 2, close 12) and can be continued to a terminal "
@@ -83,25 +110,33 @@ ASSUMPTIONS = [
     "a player may still have its last lock release to do: known finding D15, theorem alive_after_close_reachable); "
     "wait_close_delivers_all (wait=True, no stop() call in the script: when close has returned every stream received its "
     "whole chunk sequence)",
+    "call shapes (Lean): play_defaults, play_omitted_is_default, explicit_device_wins, frames_per_write; recording "
+    "streams (Lean, all histories): rec_delivered_in_order, rec_manager_invariant, rec_closed_after_close",
     "NOT claimed: close(wait=True) with a player paused at that time blocks for ever (known finding D10b; model-level "
-    "theorems deadlock_pause_close_wait, deadlock_pause_close_wait_fixed); the tie still carries liveness on the "
-    "explored schedules of the real code (outcome done/deadlock compared step by step with the model)",
+    "theorems deadlock_pause_close_wait, deadlock_pause_close_wait_fixed); close() / take() with two or more active "
+    "recording streams raises TypeError (known finding D22, proposed fix D22-recording-finished-remove-by-identity.diff); "
+    "the tie still carries liveness on the explored schedules of the real code (outcome done/deadlock compared step by "
+    "step with the model)",
 ]
 MANIFEST = {
     "text": "Lean 4 theorems about a hand-written interleaving transition system of AudioIO/AudioThread, for ALL schedules, "
-            "any number of players, chunk counts and control scripts: safety (delivery, terminate once, closed after close, "
-            "backend protocol, lock order) AND liveness (every run is finite by a ranking function; close returns and "
-            "everything is shut: shutdown_fixed, shutdown_no_pause, shutdown_wait; every terminal state characterised: "
-            "terminal_states); the same for the fine-grained system in which every pull of a sample from a played iterable "
-            "is a step (refinement fine_refines + chunk-assembly invariant fine_assembly_own_samples + fine_shutdown); tied "
-            "to /repo by a step-by-step bisimulation check of the unmodified lazy_io.py source under a deterministic "
-            "scheduler on every check, with scheduler-aware played iterables, both chunking strategies, 1..3 players",
+            "any number of players, chunk counts and control scripts, played iterables that raise included: safety "
+            "(delivery, terminate once, closed after close, backend protocol, lock order) AND liveness (every run is finite "
+            "by a ranking function; close returns and everything is shut: shutdown_fixed, shutdown_no_pause, shutdown_wait; "
+            "every terminal state characterised: terminal_states); the same for the fine-grained system in which every pull "
+            "of a sample from a played iterable is a step (refinement fine_refines + chunk-assembly invariant "
+            "fine_assembly_own_samples + fine_shutdown + fine_shutdown_with_raising_iterables); the call as written -> "
+            "pa.open arguments and chunk size (openArgs, defaults as theorems); recording streams over all histories of "
+            "record/take/stop/close (in order, closed exactly once, everything shut after close); tied to /repo by a "
+            "step-by-step bisimulation check of the unmodified lazy_io.py source under a deterministic scheduler on every "
+            "check, with scheduler-aware played iterables, both chunking strategies, 1..3 players, call-shape and sample-"
+            "spelling variety, backend writes / opens that raise, with-blocks left by an exception, recording histories",
     "note": "Trusted: Lean kernel, axioms propext/Classical.choice/Quot.sound, harness/sched.py + harness/fakeaudio.py "
-            "(CPython threading semantics assumed); the model is hand written and validated against the code step by "
-            "step along every explored schedule, not extracted from it.  PENDING: shutdown in general for played "
-            "iterables that raise, with the proposed repair of run (fine_shutdown_with_raising_iterables_PENDING; the "
-            "delivery invariant is proved for them, the livelock of the code as it is is proved: die_close_spins, D21).  The "
-            "wait=True-with-a-paused-player deadlock (D10b) is a known finding excluded by an explicit hypothesis.",
+            "(CPython threading semantics assumed); the models are hand written and validated against the code step by "
+            "step along every explored schedule / call by call along every recording history, not extracted from it.  No "
+            "PENDING statement.  Known findings excluded by explicit hypotheses / recognised signatures: wait=True with a "
+            "paused player (D10b), the last lock release of a player that left _threads before close looked (D15), close / "
+            "take with two active recording streams (D22, proposed fix).",
     "technique": "interleaving transition system in Lean 4 with inductive invariants over all schedules and a ranking "
                  "function for termination; step-by-step bisimulation against the real code under a deterministic scheduler",
 }
@@ -292,6 +327,10 @@ class _Pin(object):
                 pass
 
 
+class _BlockError(Exception):
+    """raised by the control script inside `with AudioIO(...) as io:` (must come out of the block)"""
+
+
 def pend_str(pend):
     return ",".join("%d:%s:%d" % (t, l, 1 if e else 0) for t, l, e in pend)
 
@@ -352,7 +391,7 @@ def run_case(c, pinned=False):
     S = sched.Scheduler(c.get("schedule", ()), BUDGET, namer)
     be.owner = S
     sh = shape_of(c)
-    be.faults = {"write": write_faults(c)}
+    be.faults = {"write": write_faults(c), "open": list((c.get("faults") or {}).get("open", []))}
     be.apis = [dict(a) for a in API_INFOS] if sh["api"] else []
 
     # the played objects (built outside the scheduled world: no yield point)
@@ -437,9 +476,14 @@ def run_case(c, pinned=False):
 
     def main():
         if c.get("with"):
-            with manager() as io:
-                ctx["io"] = io
-                body(io)
+            try:
+                with manager() as io:
+                    ctx["io"] = io
+                    body(io)
+                    if c.get("with_raise"):
+                        raise _BlockError()     # an exception inside the with-block
+            except _BlockError:
+                ctx["with_exc"] = "propagated"
             ctx["log"].append(["close", "ok"] + snapshot(io))
         else:
             io = manager()
@@ -471,6 +515,7 @@ def run_case(c, pinned=False):
             "finished": bool(getattr(io, "finished", False)) if io is not None else False,
             "threads": len(getattr(io, "_threads", [])) if io is not None else 0,
             "protocol_errors": list(be.protocol_errors),
+            "with_exc": ctx.get("with_exc"),
         })
 
     S.on_end = capture
@@ -550,7 +595,7 @@ def die_variant():
 def key(c):
     if is_rec(c):
         return common.json.dumps(["rec", c["script"], c.get("shape") or {}], sort_keys=True)
-    k = [c["script"], c["wait"], c["cs"], bool(c.get("with")), c.get("schedule", [])]
+    k = [c["script"], c["wait"], c["cs"], bool(c.get("with")) + 2 * bool(c.get("with_raise")), c.get("schedule", [])]
     if is_fine(c):
         k += ["fine", c.get("strategy", "struct"), c.get("sources", [])]
     if c.get("shape") or c.get("faults"):
@@ -850,6 +895,7 @@ def generate(rng, tier, scale=1):
                     cfg = {"script": h, "wait": wait, "cs": 2, "with": (hi % 5 == 0 and h[-1] == ["close"])}
                     if cfg["with"]:
                         cfg["script"] = h[:-1]
+                        cfg["with_raise"] = bool(hi % 2) != wait
                     cases += explore(cfg, 2 if quick else 3, 1500 if quick else 12000)
             for h in HISTORIES_2:
                 for wait in (False, True):
@@ -887,6 +933,8 @@ def generate(rng, tier, scale=1):
                 h.insert(rng.randrange(1, len(h) + 1), extra)
             cfg = {"script": h, "wait": rng.random() < 0.5, "cs": rng.choice([1, 2, 3]),
                    "with": rng.random() < 0.2}
+            if cfg["with"] and rng.random() < 0.5:
+                cfg["with_raise"] = True
             if rng.random() < 0.7:
                 cfg["shape"] = random_shape(rng)
             if rng.random() < 0.2:
@@ -1274,6 +1322,8 @@ def spec_problems(c, io, drv):
                 out.append(("open-arguments", "stream %d: pa.open(**%r), expected %r" % (k, got, exp["open"])))
             if exp["samples"] != cs:
                 out.append(("open-arguments", "stream %d: harness chunk size %d, spec %d" % (k, cs, exp["samples"])))
+    if c.get("with") and c.get("with_raise") and io["outcome"] == "done" and io.get("with_exc") != "propagated":
+        out.append(("with-block-exception-swallowed", "the exception raised inside the with-block did not come out of it"))
     if io["protocol_errors"]:
         out.append(("backend-protocol", io["protocol_errors"][0]))
     if io["crashes"]:
@@ -1458,7 +1508,7 @@ def tally(eng, c, io):
     eng.count("steps", len(ch) // 10 * 10)
     eng.count("players", len(io.get("alive", [])))
     eng.count("wait", c["wait"])
-    eng.count("with_block", bool(c.get("with")))
+    eng.count("with_block", ("left by an exception" if c.get("with_raise") else "left normally") if c.get("with") else False)
     eng.count("context_switches", min(sum(1 for a, b in zip(ch, ch[1:]) if a != b), 12))
     ops = {lab.split(".")[-1] if "." in lab else lab for lab in io.get("own", []) if lab}
     for o in ops:
@@ -1651,9 +1701,47 @@ def neighbours(c):
             yield dict(c, cs=cs, schedule=[])
 
 
+def _no_trace_view(o, drop=None):
+    """what must not depend on a play call whose pa.open raised: the log without that call, what
+    every device stream received and its state, the manager's state (threads that were never
+    started do not count)"""
+    log = [e[:2] for i, e in enumerate(o["log"]) if i != drop]
+    rel = lambda w: [[v % 100 if isinstance(v, int) else v for v in ch] for ch in w]   # samples(m, n): 100 (m + 1) + j
+    return {"log": log, "streams": [[rel(st["written"]), st["state"]] for st in o["streams"]],
+            "terminates": o["terminates"], "finished": o["finished"], "threads": o["threads"],
+            "outcome": o["outcome"], "protocol_errors": o["protocol_errors"], "crashes": o["crashes"]}
+
+
+def failed_open_checks():
+    """A backend whose pa.open raises for one play call: the call raises that error and leaves no
+    trace — the history goes on exactly as the history without that call (manager lock free, nothing
+    in _threads, every stream that was opened closed by close(), backend terminated once)."""
+    out = []
+    histories = [
+        ([["play", 3], ["play", 3], ["close"]], 0, 0),
+        ([["play", 3], ["play", 2], ["pause", 0], ["resume", 0], ["close"]], 1, 1),
+        ([["play", 2], ["play", 3], ["play", 1], ["stop", 0], ["close"], ["play", 2]], 1, 1),
+    ]
+    for script, k, nopen in histories:
+        for wait in (False, True):
+            a = run_case({"script": script, "wait": wait, "cs": 2, "schedule": [], "faults": {"open": [nopen]}})
+            plays = [i for i, x in enumerate(script) if x[0] == "play"]
+            # (handles th_i count the players that were created: nothing shifts)
+            less = script[:plays[k]] + script[plays[k] + 1:]
+            b = run_case({"script": less, "wait": wait, "cs": 2, "schedule": []})
+            got, want = _no_trace_view(a, plays[k]), _no_trace_view(b)
+            raised = a["log"][plays[k]][1] if plays[k] < len(a["log"]) else None
+            ok = got == want and raised == "OTHER:OSError"
+            out.append(("play whose pa.open raises leaves no trace (%d calls, failing play #%d, wait=%s)" % (len(script), k, wait),
+                        ok, "" if ok else "raised %r; with the failing call %r; without it %r" % (raised, got, want)))
+    return out
+
+
 def extra_checks(eng):
     v = variant()
     eng.count("variant_probe", v)
+    for item in failed_open_checks():
+        yield item
     mod = lazy_io()
     yield ("lazy_io source loaded from the repo under test",
            os.path.realpath(mod.__file__) == os.path.realpath(os.path.join(common.REPO, "audiolazy", "lazy_io.py")),
